@@ -530,7 +530,9 @@ def restore_fields_rule(ctx, rid="R15.14"):
             got = []
             entry = dict(entry, indexMesh=0)
             obj = XObj(ci, {simu.mangle("__indexMesh"): 0, "Get_results": lambda it=-1, entry=entry: dict(entry), "algo": EnumVal(algo_cls, algo, members[algo]), "problemType": Opaque("pt"),
-                            "_Set_solutions": lambda pt, u, v=None, a=None, got=got: got.append((u, v, a))})
+                            "_Set_solutions": lambda pt, u, v=None, a=None, got=got: got.append((u, v, a)),
+                            # the mesh switch is not the subject here (R15.7 / R15.11 / R14.22): taken or not, it is a no-op on the stand-in
+                            simu.mangle("__Update_mesh"): lambda *a_, **k_: None})
             try:
                 Interp(repo).call_function(f, [0], self_obj=obj)
             except XRaise as e:
